@@ -31,6 +31,12 @@ pub enum Op {
   CloseRx(u16),
   DropRx(u16),
   ConvRx(u16),
+  /// async receivers: start `recv()` as a task with its own waker (a task already pending on
+  /// that receiver is dropped first — a cancellation)
+  SpawnRecv(u16),
+  /// poll the receiver's task again (`true`: with a brand-new waker)
+  PollTask(u16, bool),
+  DropTask(u16),
 }
 
 #[derive(Clone, Debug, Serialize, Deserialize)]
@@ -59,6 +65,9 @@ pub fn scenario_strategy(max_ops: usize) -> BoxedStrategy<Scenario> {
     1 => h.prop_map(Op::CloseRx),
     2 => h.prop_map(Op::DropRx),
     1 => h.prop_map(Op::ConvRx),
+    4 => h.prop_map(Op::SpawnRecv),
+    2 => (h, any::<bool>()).prop_map(|(a, b)| Op::PollTask(a, b)),
+    2 => h.prop_map(Op::DropTask),
   ];
   let caps = prop_oneof![3 => Just(1usize), 3 => Just(2usize), 2 => Just(3usize), 1 => Just(8usize)];
   (any::<bool>(), caps, proptest::collection::vec(op, 1..max_ops)).prop_map(|(async_start, cap, ops)| Scenario { async_start, cap, ops }).boxed()
@@ -73,6 +82,18 @@ enum RxH {
   A(AsyncTopicReceiver<u8, Pay>),
 }
 
+/// a pending `recv()` future of an async receiver, with its own waker
+struct RTask {
+  fut: Pin<Box<dyn std::future::Future<Output = Result<(u8, Pay), RecvError>>>>,
+  flag: Arc<TFlag>,
+}
+struct TFlag(std::sync::atomic::AtomicBool);
+impl std::task::Wake for TFlag {
+  fn wake(self: Arc<Self>) {
+    self.0.store(true, std::sync::atomic::Ordering::SeqCst);
+  }
+}
+
 struct RxM {
   subs: BTreeSet<u8>,
   mailbox: VecDeque<(u8, u32)>,
@@ -82,7 +103,8 @@ struct RxM {
 struct Run<'a> {
   s: &'a Scenario,
   tx: &'a mut Vec<TxH>,
-  rx: &'a mut Vec<RxH>,
+  rx: &'a mut Vec<Box<RxH>>,
+  tasks: &'a mut Vec<Option<RTask>>,
   txm: Vec<bool>, // closed flags
   rxm: Vec<RxM>,
   reg: Arc<Registry>,
@@ -219,7 +241,7 @@ impl<'a> Run<'a> {
     let can = self.can_recv(r);
     let has_msg = !self.rxm[r].mailbox.is_empty();
     let self_closed = self.rxm[r].closed;
-    let (a, form, o): (bool, &str, O) = match (&mut self.rx[r], kind) {
+    let (a, form, o): (bool, &str, O) = match (&mut *self.rx[r], kind) {
       // blocking recv only where a message is owed (if the disconnect were lost — which the
       // timed and try forms detect — a blocking recv would park this history forever)
       (RxH::S(h), 1) if has_msg && !self_closed => (false, "recv", match h.recv() {
@@ -272,6 +294,52 @@ impl<'a> Run<'a> {
         Ok(())
       }
     }
+  }
+
+  fn drop_task(&mut self, r: usize) {
+    if let Some(t) = self.tasks[r].take() {
+      drop(t);
+      self.rep.class("task_cancelled");
+    }
+  }
+
+  fn poll_task(&mut self, r: usize, new_waker: bool) -> R {
+    let Some(t) = self.tasks[r].as_mut() else { return Ok(()) };
+    if new_waker {
+      t.flag = Arc::new(TFlag(std::sync::atomic::AtomicBool::new(false)));
+      self.rep.class("task_waker_replaced");
+    }
+    t.flag.0.store(false, std::sync::atomic::Ordering::SeqCst);
+    let waker = std::task::Waker::from(t.flag.clone());
+    let mut cx = std::task::Context::from_waker(&waker);
+    match t.fut.as_mut().poll(&mut cx) {
+      std::task::Poll::Pending => Ok(()),
+      std::task::Poll::Ready(res) => {
+        self.tasks[r] = None;
+        match res {
+          Ok((t, v)) => self.got(true, "recv_task", r, t, v.id),
+          Err(_) => self.not_got(true, "recv_task", r, true),
+        }
+      }
+    }
+  }
+
+  /// C06 for the topic mailbox: deliver every wake; a task that is still pending, was not
+  /// woken, and whose receive could complete per the model (a message is owed, or every
+  /// sender is gone) is a waiter whose waker was not invoked.
+  fn settle_tasks(&mut self) -> R {
+    for r in 0..self.tasks.len() {
+      let woken = self.tasks[r].as_ref().map(|t| t.flag.0.load(std::sync::atomic::Ordering::SeqCst)).unwrap_or(false);
+      if woken {
+        self.poll_task(r, false)?;
+      }
+    }
+    for r in 0..self.tasks.len() {
+      if self.tasks[r].is_some() && !self.rxm[r].closed && self.can_recv(r) {
+        fail!("C06", sig(true, "recv_task", "not_woken"), "a recv task of receiver {r} is pending and its waker was not invoked although {} message(s) are in its mailbox / senders alive: {}", self.rxm[r].mailbox.len(), self.tx_alive());
+      }
+    }
+    Ok(())
   }
 
   fn step(&mut self, op: &Op) -> R {
@@ -337,7 +405,7 @@ impl<'a> Run<'a> {
         if self.rxm[r].closed {
           return Ok(());
         }
-        match &self.rx[r] {
+        match &*self.rx[r] {
           RxH::S(h) => h.subscribe(*t),
           RxH::A(h) => h.subscribe(*t),
         }
@@ -351,7 +419,7 @@ impl<'a> Run<'a> {
         if self.rxm[r].closed {
           return Ok(());
         }
-        match &self.rx[r] {
+        match &*self.rx[r] {
           RxH::S(h) => h.unsubscribe(t),
           RxH::A(h) => h.unsubscribe(t),
         }
@@ -359,21 +427,29 @@ impl<'a> Run<'a> {
         self.sub_changes_after_send = self.sends > 0;
         Ok(())
       }
-      Op::TryRecv(i) if nrx > 0 => self.do_recv(idx(*i, nrx), 0, false),
-      Op::Recv(i) if nrx > 0 => self.do_recv(idx(*i, nrx), 1, false),
-      Op::RecvTimeout(i, z) if nrx > 0 => self.do_recv(idx(*i, nrx), 2, *z),
-      Op::Next(i) if nrx > 0 => self.do_recv(idx(*i, nrx), 3, false),
+      Op::TryRecv(i) | Op::Recv(i) | Op::RecvTimeout(i, _) | Op::Next(i) if nrx > 0 => {
+        let r = idx(*i, nrx);
+        // one receive operation at a time per receiver (its mailbox has a single consumer)
+        self.drop_task(r);
+        match op {
+          Op::TryRecv(_) => self.do_recv(r, 0, false),
+          Op::Recv(_) => self.do_recv(r, 1, false),
+          Op::RecvTimeout(_, z) => self.do_recv(r, 2, *z),
+          _ => self.do_recv(r, 3, false),
+        }
+      }
       Op::CloneRx(i) if nrx > 0 && nrx < 3 => {
         let r = idx(*i, nrx);
         if self.rxm[r].closed {
           // what a clone of a closed receiver is, is not specified
           return Ok(());
         }
-        let c = match &self.rx[r] {
+        let c = match &*self.rx[r] {
           RxH::S(h) => RxH::S(h.clone()),
           RxH::A(h) => RxH::A(h.clone()),
         };
-        self.rx.push(c);
+        self.rx.push(Box::new(c));
+        self.tasks.push(None);
         // "a clone" of a topic receiver is a new receiver with its own empty mailbox and the
         // same subscriptions
         let subs = self.rxm[r].subs.clone();
@@ -383,7 +459,8 @@ impl<'a> Run<'a> {
       }
       Op::CloseRx(i) if nrx > 0 => {
         let r = idx(*i, nrx);
-        let (a, res) = match &self.rx[r] {
+        self.drop_task(r);
+        let (a, res) = match &*self.rx[r] {
           RxH::S(h) => (false, h.close()),
           RxH::A(h) => (true, h.close()),
         };
@@ -399,17 +476,40 @@ impl<'a> Run<'a> {
       }
       Op::DropRx(i) if nrx > 0 => {
         let r = idx(*i, nrx);
+        self.drop_task(r);
+        self.tasks.remove(r);
         drop(self.rx.remove(r));
         self.rxm.remove(r);
         Ok(())
       }
       Op::ConvRx(i) if nrx > 0 => {
         let r = idx(*i, nrx);
-        let n = match self.rx.remove(r) {
+        self.drop_task(r);
+        let n = match *self.rx.remove(r) {
           RxH::S(h) => RxH::A(h.to_async()),
           RxH::A(h) => RxH::S(h.to_sync()),
         };
-        self.rx.insert(r, n);
+        self.rx.insert(r, Box::new(n));
+        Ok(())
+      }
+      Op::SpawnRecv(i) if nrx > 0 => {
+        let r = idx(*i, nrx);
+        if self.rxm[r].closed {
+          return Ok(());
+        }
+        self.drop_task(r);
+        let RxH::A(h) = &*self.rx[r] else { return Ok(()) };
+        // SAFETY (harness only): the receiver is boxed (stable address) and its task is always
+        // dropped before the receiver is dropped, converted or closed
+        let h: &'static AsyncTopicReceiver<u8, Pay> = unsafe { std::mem::transmute(h) };
+        let fut = Box::pin(h.recv());
+        self.tasks[r] = Some(RTask { fut, flag: Arc::new(TFlag(std::sync::atomic::AtomicBool::new(false))) });
+        self.rep.class("task_spawned");
+        self.poll_task(r, false)
+      }
+      Op::PollTask(i, nw) if nrx > 0 => self.poll_task(idx(*i, nrx), *nw),
+      Op::DropTask(i) if nrx > 0 => {
+        self.drop_task(idx(*i, nrx));
         Ok(())
       }
       _ => Ok(()),
@@ -422,21 +522,23 @@ pub fn execute(s: &Scenario) -> Result<CaseReport, Failure> {
   use std::panic::{catch_unwind, AssertUnwindSafe};
   let reg = Registry::new();
   let mut tx: ManuallyDrop<Vec<TxH>> = ManuallyDrop::new(Vec::new());
-  let mut rx: ManuallyDrop<Vec<RxH>> = ManuallyDrop::new(Vec::new());
+  let mut rx: ManuallyDrop<Vec<Box<RxH>>> = ManuallyDrop::new(Vec::new());
+  let mut tasks: ManuallyDrop<Vec<Option<RTask>>> = ManuallyDrop::new(vec![None]);
   let r = catch_unwind(AssertUnwindSafe(|| {
     if s.async_start {
       let (t, r) = topic::channel_async::<u8, Pay>(s.cap);
       tx.push(TxH::A(t));
-      rx.push(RxH::A(r));
+      rx.push(Box::new(RxH::A(r)));
     } else {
       let (t, r) = topic::channel::<u8, Pay>(s.cap);
       tx.push(TxH::S(t));
-      rx.push(RxH::S(r));
+      rx.push(Box::new(RxH::S(r)));
     }
     let mut run = Run {
       s,
       tx: &mut tx,
       rx: &mut rx,
+      tasks: &mut tasks,
       txm: vec![false],
       rxm: vec![RxM { subs: BTreeSet::new(), mailbox: VecDeque::new(), closed: false }],
       reg: reg.clone(),
@@ -455,6 +557,10 @@ pub fn execute(s: &Scenario) -> Result<CaseReport, Failure> {
       }
       run.step(op).map_err(|mut f| {
         f.message = format!("step {i} {op:?}: {}", f.message);
+        f
+      })?;
+      run.settle_tasks().map_err(|mut f| {
+        f.message = format!("after step {i} {op:?}: {}", f.message);
         f
       })?;
       let dd = reg.double_drops();
@@ -483,6 +589,7 @@ pub fn execute(s: &Scenario) -> Result<CaseReport, Failure> {
       return Err(Failure::new("C08", format!("E1/topic/panic_op/{}", crate::panic_site(&msg)), format!("panic inside the topic channel: {msg}")));
     }
   };
+  drop(ManuallyDrop::into_inner(tasks));
   let txv = ManuallyDrop::into_inner(tx);
   let rxv = ManuallyDrop::into_inner(rx);
   let senders_first = s.ops.len() % 2 == 0;
